@@ -74,10 +74,15 @@ def main():
   for ci, c in enumerate(mine):
     try:
       if c.get("hist") == "reassign":
-        q = make_fixed(dict(c, bits=c["bits"] + 1, int=c["int"] + 1))
-        call(q, f32([0.3, -0.7, 5.0]))
-        q.bits = c["bits"]
-        q.integer = c["int"]
+        if c["cls"] == "linear":            # bits / integer are read-only there; symmetric is a plain settable attribute
+          q = make_fixed(dict(c, sym=1 - c["sym"]))
+          call(q, f32([0.3, -0.7, 5.0]))
+          q.symmetric = c["sym"]
+        else:
+          q = make_fixed(dict(c, bits=c["bits"] + 1, int=c["int"] + 1))
+          call(q, f32([0.3, -0.7, 5.0]))
+          q.bits = c["bits"]
+          q.integer = c["int"]
       elif c.get("hist") == "mode_after":
         # the internal sigmoid is a global of the library that is read at call time: a quantizer built (and called)
         # under the default mode has to follow a later set_internal_sigmoid()
